@@ -382,9 +382,62 @@ Proof.
     rewrite C1, C2, C3, C4. sim_auto HS.
     + rewrite h1. reflexivity.
     + intros m w E Hin Ph. apply filter_In. split; [apply (h5 m w E Hin Ph)|].
-      rewrite observe_oids, memb_ids. cbn [s_store s]. subst mg. destruct Hm as [Hh _].
+      rewrite observe_oids, memb_ids. cbn [s_store s]. unfold s in E. cbn [s_mgr] in E. rewrite E in Hm. destruct Hm as [Hh _].
       apply pendingb_stored. apply (held_pending sto m _ Hh). apply held_iff. right. right. left.
       unfold executing. apply in_map. assumption.
     + intros p t E Hin S. inversion E. subst p. rewrite observe_oids in Hin. apply storedb_In in Hin.
-      cbn [s_store s] in Hin. congruence.
+      congruence.
+Qed.
+
+Lemma sim_run ops : forall s k, Inv s -> Sim s k -> Sim (fst (run s ops)) (chk_run k ops (snd (run s ops))).
+Proof.
+  induction ops as [|o ops IH]; intros s k HI HS; [exact HS|].
+  cbn [run]. pose proof (sim_step s k o HI HS) as H1. pose proof (inv_step s o HI) as H2.
+  destruct (step s o) as [s1 r]. cbn [fst snd] in H1, H2.
+  specialize (IH s1 (chk_step k o r) H2 H1). destruct (run s1 ops) as [s2 rs]. exact IH.
+Qed.
+
+(* the oracle accepts every trace of the model: the safety clauses hold on all histories *)
+Theorem check_sound c ops : C30_check ops (snd (run (init c) ops)) = true.
+Proof. unfold C30_check. apply (sim_ok _ _ (sim_run ops (init c) chk0 (inv_init c) (sim_init c))). Qed.
+
+(* ---- the clauses, stated over reachable states *)
+
+Lemma removed_only_after_success s o t :
+  reachable s -> storedb t (s_store s) = true -> storedb t (s_store (fst (step s o))) = false ->
+  o = OpExecFin t /\ last_ev t (s_log s) = Some (ERet t true).
+Proof. intros R. apply removal_step, reachable_inv, R. Qed.
+
+Lemma no_lost_task_r s m t :
+  reachable s -> s_mgr s = Some m -> pendingb t (s_store s) = true ->
+  count_occ N.eq_dec (held m) t = 1%nat /\
+  (In t (m_in m) \/ In t (m_re m) \/ In t (executing m) \/ In t (add_held (m_add m)) \/ In t (p_held (m_poll m))).
+Proof. intros R. apply no_lost_task, reachable_inv, R. Qed.
+
+Lemma held_is_pending_r s m t :
+  reachable s -> s_mgr s = Some m -> In t (held m) ->
+  pendingb t (s_store s) = true /\ count_occ N.eq_dec (held m) t = 1%nat.
+Proof. intros R. apply held_is_pending, reachable_inv, R. Qed.
+
+Lemma start_order_exists_r s : reachable s -> order_ok (pending_ids (s_store s)) (pending_ids (s_store s)) = true.
+Proof. intros R. apply start_order_exists, reachable_inv, R. Qed.
+
+Lemma progress_possible_r s t :
+  reachable s -> cfg_ok (s_cfg s) = true -> storedb t (s_store s) = true ->
+  exists ops s' outs l, run s ops = (s', outs) /\ legal outs /\ s_log s' = l ++ s_log s /\ In (EStart t) l.
+Proof. intros R. apply progress_possible, reachable_inv, R. Qed.
+
+Lemma until_success_r s t n :
+  reachable s -> cfg_ok (s_cfg s) = true -> storedb t (s_store s) = true ->
+  exists ops s' outs l, run s ops = (s', outs) /\ legal outs /\ s_log s' = l ++ s_log s /\
+    about t l = ERet t true :: EStart t :: fails t n /\ storedb t (s_store s') = false.
+Proof. intros R. apply until_success, reachable_inv, R. Qed.
+
+(* a failed execution, a full queue and a restart keep the task: it stays stored whatever happens
+   short of the worker's Remove after a success *)
+Lemma stays_stored s o t :
+  reachable s -> storedb t (s_store s) = true -> o <> OpExecFin t -> storedb t (s_store (fst (step s o))) = true.
+Proof.
+  intros R S Ne. destruct (storedb t (s_store (fst (step s o)))) eqn:E; [reflexivity|].
+  destruct (removed_only_after_success s o t R S E) as [K _]. contradiction.
 Qed.
